@@ -15,7 +15,7 @@ class C08(CFGProp):
     ASSUMPTIONS = ["derivability decided for words up to length 4 by a least-fixpoint oracle (second formulation cross-checked in selftest)"]
 
     def layers(self, tier, seed):
-        return cfg_layers(tier, adversarial=("cnf", "clash", "mixedval", "mixedter"))
+        return cfg_layers(tier, adversarial=("cnf", "clash", "mixedval", "mixedter", "epsspelt", "mixedcnf"))
 
     def reference(self, case):
         r = self.ref_gram(case, "plain")
